@@ -79,6 +79,22 @@ class T2Case(Case):
             self._cs[compiled] = self.prog.load(compiled)
         return self._cs[compiled].T
 
+    def load_or_reject(self, ctx):
+        """Load both variants. A definition may only be refused for a straddling bit-field (ValueError), and only when
+        the reference layout says the same. Returns False when the program is (rightly or wrongly) refused."""
+        from specs import layout
+
+        try:
+            self.cls(False)
+            self.cls(True)
+            return True
+        except Exception as e:  # noqa: BLE001
+            ref_straddle = _reference_straddles(self.prog)
+            ok = isinstance(e, ValueError) and "traddle" in str(e) and ref_straddle
+            ctx.prove("C06/definition-accepted-or-straddle-refused", ok,
+                      info=f"definition refused with {type(e).__name__}: {str(e)[:80]}; reference says straddle={ref_straddle}")
+            return False
+
     def interp(self, ctx):
         return Interp(ctx, summaries=summaries(), unroll=UNROLL)
 
@@ -188,6 +204,8 @@ class RelCompiledInterpreted(T2Case):
     functions = ["dissect/cstruct/types/structure.py:StructureMetaType._read", "<generated>._read (compiler.py:_ReadSourceGenerator)"]
 
     def body(self, ctx):
+        if not self.load_or_reject(ctx):
+            return
         Ti, Tc = self.cls(False), self.cls(True)
         D, p = self.new_input(ctx)
         it = self.interp(ctx)
@@ -298,6 +316,9 @@ class Pipeline(T2Case):
     def want(self, p):
         return p in self.props
 
+    def native(self, inputs):
+        return native_pipeline(self.prog, self.compiled, self.props, inputs)
+
     def interp(self, ctx):
         sm = dict(summaries())
         if "C02" in self.props:
@@ -307,6 +328,8 @@ class Pipeline(T2Case):
         return Interp(ctx, summaries=sm, unroll=UNROLL)
 
     def body(self, ctx):
+        if not self.load_or_reject(ctx):
+            return
         T = self.cls(self.compiled)
         D, p = self.new_input(ctx)
         it = self.interp(ctx)
@@ -458,6 +481,13 @@ def _dyn_fidelity(ctx, it, T, B, inp):
                 # the input byte with the unassigned bits of a bit-field unit cleared
                 off = _norm(zint(off) + 1)
                 continue
+            if isinstance(item, int) and item == 0:
+                slack = ctx.ghost.get("bb", {}).get("slack", [])
+                zo = z3.simplify(zint(off))
+                if any(nm == "out" and z3.eq(z3.simplify(zint(o)), zo) for nm, o in slack):
+                    # a unit byte none of whose bits belongs to a field: written as zero
+                    off = _norm(zint(off) + 1)
+                    continue
             e = deep_eq(it, item, ib)
             if T.__align__ and e is not True:
                 z = deep_eq(it, item, 0)
@@ -531,6 +561,119 @@ def _collect_terms(v, depth=0):
         for name in type(v).fields:
             out += _collect_terms(getattr(v, name, None), depth + 1)
     return out
+
+
+def native_pipeline(prog, compiled, props, inputs):
+    """Replay of a pipeline counter-model on the real library (no engine involved)."""
+    from specs import layout
+
+    data = bytes.fromhex(inputs["D"])
+    p = inputs["p"]
+    T = prog.load(compiled).T
+    obs = {}
+    bad = []
+    s = io.BytesIO(data)
+    s.seek(p)
+    try:
+        v = T._read(s)
+    except Exception as e:  # noqa: BLE001
+        obs["parse"] = f"raises {type(e).__name__}: {str(e)[:80]}"
+        if "C08" in props and not isinstance(e, EOFError) and len(data) - p < 64:
+            # is it a premature end? (the same input extended with zeros parses)
+            try:
+                s2 = io.BytesIO(data + bytes(64))
+                s2.seek(p)
+                T._read(s2)
+                if not (has_eof_array(prog) and type(e).__name__ == "error"):
+                    bad.append(f"premature end signalled as {type(e).__name__}")
+            except Exception:  # noqa: BLE001
+                pass
+        return {"reproduced": bool(bad), "observed": {**obs, "violations": bad}}
+    end = s.tell()
+    consumed = end - p
+    obs["parsed"] = repr(v)[:300]
+    obs["consumed"] = consumed
+    if "C04" in props and T.size is not None and consumed != len(T):
+        bad.append(f"consumed {consumed} != len(T) {len(T)}")
+    if "C08" in props and not has_eof_array(prog):
+        s2 = io.BytesIO(data + b"\xa5" * 7)
+        s2.seek(p)
+        try:
+            v2 = T._read(s2)
+            if not native_equiv(v2, v):
+                bad.append(f"longer input gives another value: {v2!r}"[:200])
+        except Exception as e:  # noqa: BLE001
+            bad.append(f"longer input raises {type(e).__name__}")
+    if "C09" in props:
+        try:
+            w = T._read(io.BytesIO(data[p:]))
+            if not native_equiv(w, v) or dict(w._sizes) != dict(v._sizes):
+                bad.append(f"T(D[p:]) differs: {w!r} sizes {w._sizes} vs {v._sizes}"[:300])
+        except Exception as e:  # noqa: BLE001
+            bad.append(f"T(D[p:]) raises {type(e).__name__}")
+    if props & {"C01", "C02", "C04"}:
+        try:
+            out = T.dumps(v)
+        except Exception as e:  # noqa: BLE001
+            bad.append(f"dumps raises {type(e).__name__}: {str(e)[:80]}")
+            return {"reproduced": True, "observed": {**obs, "violations": bad}}
+        obs["dumped"] = out.hex()
+        if "C04" in props and T.size is not None and len(out) != len(T):
+            bad.append(f"dumped {len(out)} != len(T) {len(T)}")
+        if "C02" in props:
+            if len(out) != consumed:
+                bad.append(f"dumped {len(out)} bytes, consumed {consumed}")
+            elif T.size is not None:
+                desc = layout.describe(T)
+                if desc["size"] == len(out) and desc.get("layout", True) is not None:
+                    m = layout.mask(desc, prog.endian)
+                    for k, mk in enumerate(m):
+                        if out[k] != (data[p + k] & mk):
+                            bad.append(f"byte {k}: out {out[k]:#04x} in {data[p + k]:#04x} mask {mk:#04x}")
+                            break
+                else:
+                    bad.append(f"reference size {desc['size']} != dumped {len(out)}")
+            elif not prog.align and not any(k.startswith("b") for k in prog.kinds) and out != data[p:end]:
+                bad.append(f"dump {out.hex()} != input {data[p:end].hex()}")
+        if "C01" in props:
+            R = b"" if has_eof_array(prog) else b"\x5a\xa5\x01"
+            s3 = io.BytesIO(out + R)
+            try:
+                v3 = T._read(s3)
+                if not native_equiv(v3, v):
+                    bad.append(f"parse(dumps(v)) = {v3!r} != v"[:300])
+                if s3.tell() != len(out):
+                    bad.append(f"re-parse consumed {s3.tell()} of {len(out)}")
+            except Exception as e:  # noqa: BLE001
+                bad.append(f"re-parse raises {type(e).__name__}: {str(e)[:80]}")
+    return {"reproduced": bool(bad), "observed": {**obs, "violations": bad}}
+
+
+def _reference_straddles(prog):
+    """Does the reference (C06 statement) refuse this definition? Decided on the declaration text: bit-field runs."""
+    import re
+
+    from specs import layout
+
+    body = prog.text[prog.text.rindex("T {") + 3 : prog.text.rindex("}")]
+    sizes = {"uint8": 1, "int8": 1, "uint16": 2, "int16": 2, "uint32": 4, "int32": 4, "uint64": 8, "int64": 8, "uint24": 3,
+             "int24": 3, "E8": 1, "E16s": 2, "F32": 4, "char": 1}
+    cur = None
+    rem = 0
+    for decl in body.split(";"):
+        decl = decl.strip()
+        m = re.match(r"^(\w+)\s+\w+\s*:\s*(\d+)$", decl)
+        if not m:
+            cur = None
+            continue
+        t, b = m.group(1), int(m.group(2))
+        st = {"E8": "uint8", "E16s": "int16", "F32": "uint32"}.get(t, t)
+        if cur != st or rem == 0:
+            cur, rem = st, sizes[t] * 8
+        if b > rem:
+            return True
+        rem -= b
+    return False
 
 
 def make_pipe(prog_json, compiled, props):
